@@ -4,6 +4,8 @@ import GmQuic.Model.Wake2
 import GmQuic.Model.WakeAA
 import GmQuic.Model.Wake3
 import GmQuic.Model.Wake4
+import GmQuic.Model.Wake5
+import GmQuic.Model.WakeCid
 /-! Line driver for C16: one entry per waiter/notifier protocol; exact comparison of the poll result and of
 the (sorted) list of wakers woken by every operation.  The models of `Receiving` and `OpenStream` are the
 ones of the FIXED code (repo_patches/fix-C16-*.diff); `C16rx0` / `C16open0` replay against the pinned code. -/
@@ -145,6 +147,30 @@ def parseFan : List String → Option Fan.Op
   | ["dropfut", t] => do some (.dropfut (← nat? t))
   | _ => none
 
+def parseCrW : List String → Option CrW.Op
+  | ["poll", t, w, "write", n] => do some (.poll (← nat? t) (← nat? w) (some (← nat? n)))
+  | ["poll", t, w, "flush"] => do some (.poll (← nat? t) (← nat? w) none)
+  | ["load"] => some .load
+  | ["ack"] => some .ack
+  | ["dropfut", t] => do some (.dropfut (← nat? t))
+  | _ => none
+
+def crwExtra (s : CrW.State) (o : CrW.Op) (s' : CrW.State) : String :=
+  match o with
+  | .load =>
+    if s'.unacked.length > s.unacked.length then
+      match s'.unacked.getLast? with
+      | some (a, b) => s!" emitted={a}..{b}"
+      | none => " emitted=-"
+    else " emitted=-"
+  | _ => ""
+
+def parseCrR : List String → Option CrR.Op
+  | ["poll", t, w, c] => do some (.poll (← nat? t) (← nat? w) (← nat? c))
+  | ["recv", o, l] => do some (.recv (← nat? o) (← nat? l))
+  | ["dropfut", t] => do some (.dropfut (← nat? t))
+  | _ => none
+
 /-! `AntiAmplifier`: the harness calls whole methods one after the other; each is the model's atomic steps in
 program order (`AA.step`), so the sequential run validates the effect of every atomic step. The model tracks only
 *whether* the waiter's waker is stored; the driver remembers which one. -/
@@ -218,6 +244,49 @@ def aaStep (a : AaSeq) (op : List String) : AaSeq × String :=
       (⟨AA.step s1 .casWake, a.slot⟩, s!"- wakes={fmtWakes wk}")
   | _ => (a, "BAD op")
 
+/-! `CidCell`: sequential composition of the critical sections of Model/WakeCid.lean; the driver remembers which waker
+the SendWaker holds and whether the first NEW_CONNECTION_ID (the one that reaches the waiting cell) has arrived. -/
+structure CidSeq where
+  s : Cid.State
+  slot : Option Nat
+  assigned : Bool
+
+def cidWakes (c : CidSeq) : List Nat :=
+  if c.s.cellWaker && !c.s.bit && c.s.registered then (match c.slot with | some w => [w] | none => []) else []
+
+def cidBorrow (c : CidSeq) : CidSeq × String :=
+  let s0 := Cid.step c.s .restart
+  let s1 := Cid.step s0 .waiter
+  if s0.retired then (⟨s1, c.slot, c.assigned⟩, "done")
+  else if !s0.hasCid then (⟨s1, c.slot, c.assigned⟩, "blocked")
+  else (⟨s1, c.slot, c.assigned⟩, "ready:1")
+
+def cidStep (c : CidSeq) (op : List String) : CidSeq × String :=
+  match op with
+  | ["borrow"] => let (c', r) := cidBorrow c; (c', s!"{r} wakes=-")
+  | ["poll", _, w] =>
+    match nat? w with
+    | none => (c, "BAD op")
+    | some w =>
+      let (c', r) := cidBorrow c
+      if r == "blocked" then
+        let hadBit := c'.s.bit
+        let s' := Cid.step c'.s .waiter
+        if hadBit then (⟨s', c'.slot, c'.assigned⟩, "ready:0 wakes=-") else (⟨s', some w, c'.assigned⟩, "pending wakes=-")
+      else (c', s!"{r} wakes=-")
+  | ["newcid"] =>
+    if c.assigned || c.s.retired then (c, "- wakes=-")
+    else
+      let c1 : CidSeq := ⟨{ c.s with hasCid := true }, c.slot, true⟩
+      (⟨Cid.step c.s .assign, c.slot, true⟩, s!"- wakes={fmtWakes (cidWakes c1)}")
+  | ["retire"] =>
+    if c.s.retired then (c, "- wakes=-")
+    else (⟨Cid.step c.s .retire, c.slot, c.assigned⟩, s!"- wakes={fmtWakes (cidWakes c)}")
+  | ["dropfut", _] => (c, "- wakes=-")
+  | _ => (c, "BAD op")
+
+def cidModel : Model CidSeq := { init := ⟨Cid.init, none, false⟩, step := exact cidStep }
+
 def aaModel : Model AaSeq := { init := ⟨AA.init, none⟩, step := exact aaStep }
 
 def entries : List (String × IO UInt32) :=
@@ -236,6 +305,10 @@ def entries : List (String × IO UInt32) :=
    ("C16rcv", runModel (mk (Rcv.proto true 100) parseRcv)),
    ("C16lsn", runModel (mk (Listen.proto 8) parseListen)),
    ("C16fan", runModel (mk Fan.proto parseFan)),
+   ("C16crw", runModel (mkX (CrW.proto true) parseCrW crwExtra)),
+   ("C16crw0", runModel (mkX (CrW.proto false) parseCrW crwExtra)),
+   ("C16crr", runModel (mk CrR.proto parseCrR)),
+   ("C16cid", runModel cidModel),
    ("C16rcv0", runModel (mk (Rcv.proto false 100) parseRcv))]
 
 end GmQuic.Drv.C16
